@@ -19,6 +19,7 @@ from typing import Any
 import falcon
 
 from .._common import (
+    _ARROW_CONTENT_TYPE,
     _ERROR_PAGE_STYLE,
     _FONT_IMPORTS,
     _VGI_LOGO_HTML,
@@ -26,6 +27,7 @@ from .._common import (
     AUTH_REASON_HEADER,
 )
 from .._unauthorized import AuthReason
+from ._responses import _error_response_stream
 
 _NOT_FOUND_HTML_TEMPLATE = (
     """\
@@ -154,8 +156,10 @@ def _wants_html(req: falcon.Request) -> bool:
 def _make_error_serializer(proxy_hint: str = "") -> Callable[[falcon.Request, falcon.Response, falcon.HTTPError], None]:
     """Build the Falcon error serializer for one app.
 
-    Only ``HTTPUnauthorized`` (401) is given the standardized treatment; every
-    other error falls back to Falcon's default JSON serialization.
+    ``HTTPUnauthorized`` (401) is given the standardized treatment, and the
+    request middlewares' 400 / 413 rejections carry an Arrow IPC error stream
+    like every other RPC rejection; every other error falls back to Falcon's
+    default JSON serialization.
 
     Args:
         proxy_hint: The app's static proxy-configuration note, or ``""`` when
@@ -172,6 +176,13 @@ def _make_error_serializer(proxy_hint: str = "") -> Callable[[falcon.Request, fa
 
     def _serialize(req: falcon.Request, resp: falcon.Response, exc: falcon.HTTPError) -> None:
         """Serialize one Falcon error onto the response."""
+        if isinstance(exc, (falcon.HTTPBadRequest, falcon.HTTPContentTooLarge)):
+            # 400 (undecodable body) / 413 (oversize body) come from the request
+            # middlewares; like every other RPC rejection they carry an Arrow IPC
+            # error stream (WIRE_PROTOCOL.md, HTTP status code mapping).
+            resp.content_type = _ARROW_CONTENT_TYPE
+            resp.data = _error_response_stream(RuntimeError(f"{exc.title}: {exc.description}")).getvalue()
+            return
         if not isinstance(exc, falcon.HTTPUnauthorized):
             resp.content_type = falcon.MEDIA_JSON
             resp.data = exc.to_json()
